@@ -48,33 +48,63 @@ where
     }
 }
 
-fn build_f32(ws: &[Option<u128>], k: u32) -> Built {
-    let scale = (2.0f32).powi(-(k as i32));
-    let v: Vec<f32> = ws.iter().map(|w| w.map(|v| v as f32 * scale).unwrap_or(f32::NAN)).collect();
+fn build_f32(ws: &[Option<u128>]) -> Built {
+    let v: Vec<f32> = ws.iter().map(|w| w.map(|v| f32::from_bits(v as u32)).unwrap_or(f32::NAN)).collect();
     let e = guarded(|| EncoderHuffmanTree::from_float_probabilities::<f32, _>(&v));
     let d = guarded(|| DecoderHuffmanTree::from_float_probabilities::<f32, _>(&v));
     (flatten_guard(e), flatten_guard(d))
 }
 
-fn build_f64(ws: &[Option<u128>], k: u32) -> Built {
-    let scale = (2.0f64).powi(-(k as i32));
-    let v: Vec<f64> = ws.iter().map(|w| w.map(|v| v as f64 * scale).unwrap_or(f64::NAN)).collect();
+fn build_f64(ws: &[Option<u128>]) -> Built {
+    let v: Vec<f64> = ws.iter().map(|w| w.map(|v| f64::from_bits(v as u64)).unwrap_or(f64::NAN)).collect();
     let e = guarded(|| EncoderHuffmanTree::from_float_probabilities::<f64, _>(&v));
     let d = guarded(|| DecoderHuffmanTree::from_float_probabilities::<f64, _>(&v));
     (flatten_guard(e), flatten_guard(d))
 }
 
-fn build(ty: &str, k: u32, ws: &[Option<u128>]) -> Option<Built> {
+/// `ws`: values for integer types, IEEE bit patterns for float types; `None` = NaN / `Err` item.
+/// A weight that does not fit the type is malformed (`None` result).
+fn build(ty: &str, ws: &[Option<u128>]) -> Option<Built> {
+    let bits = match ty {
+        "u8" => 8,
+        "u16" => 16,
+        "u32" | "f32" => 32,
+        "u64" | "usize" | "f64" => 64,
+        _ => return None,
+    };
+    if ws.iter().any(|w| matches!(w, Some(v) if *v >= pow2(bits))) {
+        return None;
+    }
     Some(match ty {
         "u8" => build_int::<u8>(ws),
         "u16" => build_int::<u16>(ws),
         "u32" => build_int::<u32>(ws),
         "u64" => build_int::<u64>(ws),
         "usize" => build_int::<usize>(ws),
-        "f32" => build_f32(ws, k),
-        "f64" => build_f64(ws, k),
+        "f32" => build_f32(ws),
+        "f64" => build_f64(ws),
         _ => return None,
     })
+}
+
+/// protocol weights for integer *values* `v · 2^-k` (floats: the bit pattern of that value)
+fn to_proto(ty: &str, vals: &[Option<u128>], k: u32) -> Vec<Option<u128>> {
+    vals.iter()
+        .map(|w| {
+            w.map(|v| match ty {
+                "f32" => (v as f32 * (2.0f32).powi(-(k as i32))).to_bits() as u128,
+                "f64" => (v as f64 * (2.0f64).powi(-(k as i32))).to_bits() as u128,
+                _ => v,
+            })
+        })
+        .collect()
+}
+
+fn proto_str(ws: &[Option<u128>]) -> String {
+    if ws.is_empty() {
+        return "-".into();
+    }
+    ws.iter().map(|w| match w { Some(v) => hex(*v), None => "nan".to_string() }).collect::<Vec<_>>().join(",")
 }
 
 fn type_bits(ty: &str) -> Option<u32> {
@@ -259,22 +289,15 @@ pub fn run(segs: &[Vec<&str>]) -> String {
     if segs.len() < 2 || segs[1].len() != 1 {
         return "bad-op".into();
     }
-    let (ty, k) = match segs[0].as_slice() {
-        ["huff", ty] => (*ty, None),
-        ["huff", ty, k] => match parse_hex(k) {
-            Some(k) => (*ty, Some(k as u32)),
-            None => return "bad-op".into(),
-        },
+    let ty = match segs[0].as_slice() {
+        ["huff", ty] => *ty,
         _ => return "bad-op".into(),
     };
-    if type_bits(ty).is_some() && k.is_some() {
-        return "bad-op".into();
-    }
     let ws = match parse_weights(segs[1][0]) {
         Some(ws) => ws,
         None => return "bad-op".into(),
     };
-    let (e, d) = match build(ty, k.unwrap_or(0), &ws) {
+    let (e, d) = match build(ty, &ws) {
         Some(b) => b,
         None => return "bad-op".into(),
     };
@@ -375,20 +398,23 @@ fn bits_str_random(rng: &mut Rng, len: usize) -> String {
     (0..len).map(|_| if rng.chance(1, 2) { '1' } else { '0' }).collect()
 }
 
-/// a standard set of ops for a weight vector of length `n` (all node arrays, every symbol in
+/// a standard set of ops for a weight vector (protocol form): all node arrays, every symbol in
 /// both forms for small `n`, out-of-alphabet symbols, decodes of codewords + suffixes, decodes
-/// of arbitrary and truncated bit strings, failing emit / failing source)
-fn ops_for(rng: &mut Rng, ws: &[u128], ty: &str, rich: bool) -> String {
+/// of arbitrary and truncated bit strings, failing emit / failing source.  The real encoder tree
+/// (if the construction succeeds) is used only to aim the decode ops.
+fn ops_for(rng: &mut Rng, ty: &str, ws: &[Option<u128>], rich: bool) -> String {
     let n = ws.len();
     let mut ops: Vec<String> = vec!["enc".into(), "dec".into(), "ns".into()];
     if n <= 40 || rich {
         ops.push("book".into());
     }
-    // the real code tells us the codewords (only used to aim the decode ops)
-    let wsv: Vec<u64> = ws.iter().map(|&w| w as u64).collect();
-    let total: u128 = ws.iter().sum();
-    let safe = total <= u64::MAX as u128 && n >= 1;
-    let tree = if safe { Some(EncoderHuffmanTree::from_probabilities::<u64, _>(&wsv)) } else { None };
+    let tree = match build(ty, ws) {
+        Some((Ok(e), Ok(_))) => Some(e),
+        _ => None,
+    };
+    if n == 0 {
+        return ops.join(" | ");
+    }
     let syms: Vec<usize> = if n <= 8 {
         (0..n).collect()
     } else {
@@ -424,12 +450,10 @@ fn ops_for(rng: &mut Rng, ws: &[u128], ty: &str, rich: bool) -> String {
                     }
                 }
                 3 => {
-                    // truncated codeword
                     let keep = if word.is_empty() { 0 } else { rng.below(word.len() as u128) as usize };
                     word.truncate(keep);
                 }
                 _ => {
-                    // source error somewhere (inside or after the codeword)
                     let at = rng.below(word.len() as u128 + 2) as usize;
                     let at = at.min(word.len());
                     word.insert(at, 'x');
@@ -440,12 +464,10 @@ fn ops_for(rng: &mut Rng, ws: &[u128], ty: &str, rich: bool) -> String {
     }
     // out-of-alphabet symbols (C09): n, n+1, 2n-1 (= nodes.len()), 2n, powers of two, usize::MAX
     let mut outside: Vec<u128> = vec![n as u128, n as u128 + 1, 2 * n as u128, 1 << 16, 1 << 32, (1 << 32) + 1, u64::MAX as u128];
-    if n >= 1 {
-        outside.push(2 * n as u128 - 1);
-        outside.push(2 * n as u128 - 2);
-        outside.push((1u128 << 32) + (n as u128 - 1));
-        outside.push((1u128 << 63) + (n as u128 - 1));
-    }
+    outside.push(2 * n as u128 - 1);
+    outside.push(2 * n as u128 - 2);
+    outside.push((1u128 << 32) + (n as u128 - 1));
+    outside.push((1u128 << 63) + (n as u128 - 1));
     let k = if rich { outside.len() } else { 3 };
     for _ in 0..k {
         let s = *rng.pick(&outside);
@@ -454,7 +476,6 @@ fn ops_for(rng: &mut Rng, ws: &[u128], ty: &str, rich: bool) -> String {
             ops.push(format!("{} {:x}", which, s));
         }
     }
-    // arbitrary bit strings
     for _ in 0..(if rich { 4 } else { 2 }) {
         let l = rng.below(12) as usize;
         ops.push(format!("decode {}", bits_str_random(rng, l)));
@@ -463,11 +484,18 @@ fn ops_for(rng: &mut Rng, ws: &[u128], ty: &str, rich: bool) -> String {
     ops.join(" | ")
 }
 
-fn line(ty: &str, k: Option<u32>, ws_text: &str, ops: &str) -> String {
-    match k {
-        Some(k) => format!("huff {} {:x} | {} | {}", ty, k, ws_text, ops),
-        None => format!("huff {} | {} | {}", ty, ws_text, ops),
-    }
+/// one protocol line for integer *values* (floats: `v · 2^-k`, exact)
+fn line_vals(rng: &mut Rng, ty: &str, k: u32, vals: &[u128], rich: bool) -> String {
+    let opts: Vec<Option<u128>> = vals.iter().map(|&v| Some(v)).collect();
+    let ws = to_proto(ty, &opts, k);
+    let ops = ops_for(rng, ty, &ws, rich);
+    format!("huff {} | {} | {}", ty, proto_str(&ws), ops)
+}
+
+/// one protocol line for protocol weights (floats: arbitrary bit patterns)
+fn line_proto(rng: &mut Rng, ty: &str, ws: &[Option<u128>], rich: bool) -> String {
+    let ops = ops_for(rng, ty, ws, rich);
+    format!("huff {} | {} | {}", ty, proto_str(ws), ops)
 }
 
 const INT_TYPES: [&str; 5] = ["u8", "u16", "u32", "u64", "usize"];
@@ -493,10 +521,99 @@ fn for_all_vectors(len: usize, max_w: u128, f: &mut dyn FnMut(&[u128])) {
     }
 }
 
+fn fbits(ty: &str, x: f64) -> u128 {
+    if ty == "f32" { (x as f32).to_bits() as u128 } else { x.to_bits() as u128 }
+}
+
+/// float weight vectors whose sums **round** (protocol form: bit patterns)
+fn rounding_vector(rng: &mut Rng, ty: &str) -> Vec<Option<u128>> {
+    let mant: i32 = if ty == "f32" { 24 } else { 53 };
+    let p = |e: i32| (2.0f64).powi(e);
+    let n = rng.range(2, 9) as usize;
+    let style = rng.next() % 9;
+    let v: Vec<f64> = match style {
+        // small + large: the small one is (partly) absorbed
+        0 => (0..n).map(|_| if rng.chance(1, 2) { rng.range(1, 9) as f64 } else { p(mant) + (2 * rng.below(6)) as f64 }).collect(),
+        // around the 2^mant boundary: sums tie after rounding (ties to even)
+        1 => {
+            let base = p(mant - 1);
+            (0..n).map(|_| base + rng.below(8) as f64 - if rng.chance(1, 3) { base / 2.0 } else { 0.0 }).collect()
+        }
+        // wide magnitude spread
+        2 => (0..n).map(|_| p(rng.below(2 * mant as u128 + 8) as i32 - 4) * (1.0 + rng.below(8) as f64 / 8.0)).collect(),
+        // decimal fractions (the crate's own float test uses 0.19, 0.2, 0.41, 0.1, 0.1)
+        3 => (0..n).map(|_| rng.below(100) as f64 / 100.0).collect(),
+        // denormals and the smallest normals
+        4 => {
+            let tiny = if ty == "f32" { f32::from_bits(1) as f64 } else { f64::from_bits(1) };
+            (0..n).map(|_| match rng.next() % 3 { 0 => tiny * rng.below(5) as f64, 1 => tiny * p(mant - 1) * (1.0 + rng.below(4) as f64 / 4.0), _ => tiny * p(mant) }).collect()
+        }
+        // huge values: sums overflow to +inf
+        5 => {
+            let big = if ty == "f32" { f32::MAX as f64 } else { f64::MAX };
+            (0..n).map(|_| match rng.next() % 3 { 0 => big, 1 => big / 2.0, _ => big / 3.0 }).collect()
+        }
+        // negative weights, ±0, ±inf (admitted by the constructor; `-inf + inf` is a NaN sum)
+        6 => (0..n).map(|_| match rng.next() % 8 { 0 => -0.0, 1 => 0.0, 2 => f64::INFINITY, 3 => f64::NEG_INFINITY, 4 => -(rng.below(5) as f64), _ => rng.below(5) as f64 }).collect(),
+        // repeated values whose pair sums round to another repeated value
+        7 => {
+            let a = p(mant) + 2.0;
+            let vals = [1.0, a, a + 2.0, a * 2.0, 3.0];
+            (0..n).map(|_| *rng.pick(&vals)).collect()
+        }
+        // arbitrary finite bit patterns of either sign
+        _ => {
+            return (0..n)
+                .map(|_| {
+                    Some(if ty == "f32" {
+                        let b = (rng.next() as u32) & 0xff7f_ffff;
+                        (if b & 0x7f80_0000 == 0x7f80_0000 { b & 0xbfff_ffff } else { b }) as u128
+                    } else {
+                        let b = rng.next() & 0xffef_ffff_ffff_ffff;
+                        (if b & 0x7ff0_0000_0000_0000 == 0x7ff0_0000_0000_0000 { b & 0xbfff_ffff_ffff_ffff } else { b }) as u128
+                    })
+                })
+                .collect();
+        }
+    };
+    v.iter().map(|&x| Some(fbits(ty, x))).collect()
+}
+
+/// does some merge produce a NaN sum (`-inf + inf`) while other entries remain in the heap?
+/// `BinaryHeap` orders with `PartialOrd` (`<=`), which is `false` for a NaN key, so the pop order
+/// then depends on the heap's layout: outside the model (and outside the property, which speaks
+/// of non-negative weights).  Such inputs are not generated.
+fn nan_sum_midway(ty: &str, ws: &[Option<u128>]) -> bool {
+    let mut heap: Vec<(f64, usize)> = Vec::new();
+    for (i, w) in ws.iter().enumerate() {
+        let x = match w {
+            Some(b) => if ty == "f32" { f32::from_bits(*b as u32) as f64 } else { f64::from_bits(*b as u64) },
+            None => return false,
+        };
+        if x.is_nan() {
+            return false;
+        }
+        heap.push((x, i));
+    }
+    let mut next = heap.len();
+    while heap.len() >= 2 {
+        heap.sort_by(|a, b| a.0.partial_cmp(&b.0).unwrap().then(a.1.cmp(&b.1)));
+        let a = heap.remove(0);
+        let b = heap.remove(0);
+        let sum = if ty == "f32" { (a.0 as f32 + b.0 as f32) as f64 } else { a.0 + b.0 };
+        if sum.is_nan() {
+            return !heap.is_empty();
+        }
+        heap.push((sum, next));
+        next += 1;
+    }
+    false
+}
+
 pub fn gen(rng: &mut Rng, tier: &str, out: &mut Vec<String>) {
     let thorough = tier == "thorough";
     // 1. all weight vectors over {0..5}: quick: length ≤ 4 complete (1554 vectors) plus a
-    //    random 1/60 sample of lengths 5..7; thorough: length ≤ 6 complete, 1/6 of length 7.
+    //    random sample of lengths 5..7; thorough: length ≤ 6 complete, 1/6 of length 7.
     let complete_upto = if thorough { 6 } else { 4 };
     let mut idx = 0usize;
     for len in 1..=7usize {
@@ -517,9 +634,8 @@ pub fn gen(rng: &mut Rng, tier: &str, out: &mut Vec<String>) {
             if sample_den == 1 || r.next() % sample_den == 0 {
                 let ty = ALL_TYPES[idx % ALL_TYPES.len()];
                 idx += 1;
-                let k = if ty.starts_with('f') { Some((r.next() % 4) as u32 * 5) } else { None };
-                let ops = ops_for(&mut r, v, ty, false);
-                lines.push(line(ty, k, &weights_str(v), &ops));
+                let k = if ty.starts_with('f') { (r.next() % 4) as u32 * 5 } else { 0 };
+                lines.push(line_vals(&mut r, ty, k, v, false));
             }
         });
         out.extend(lines);
@@ -527,10 +643,9 @@ pub fn gen(rng: &mut Rng, tier: &str, out: &mut Vec<String>) {
     let mult = if thorough { 20 } else { 1 };
     // 2. empty list, single symbol
     for ty in ALL_TYPES {
-        out.push(line(ty, None, "-", "enc"));
+        out.push(format!("huff {} | - | enc", ty));
         for w in [0u128, 1, 5, 0xff] {
-            let ops = ops_for(rng, &[w], ty, true);
-            out.push(line(ty, None, &weights_str(&[w]), &ops));
+            out.push(line_vals(rng, ty, 0, &[w], true));
         }
     }
     // 3. repeated weights (tie-breaking by index), incl. all-equal, all-zero, two-valued
@@ -548,8 +663,7 @@ pub fn gen(rng: &mut Rng, tier: &str, out: &mut Vec<String>) {
         if ty == "u8" && total > 255 {
             continue;
         }
-        let ops = ops_for(rng, &ws, ty, false);
-        out.push(line(ty, None, &weights_str(&ws), &ops));
+        out.push(line_vals(rng, ty, 0, &ws, false));
     }
     // 4. sums that tie with leaves / other sums (powers of two, Fibonacci = deepest trees)
     for n in 2..=(if thorough { 80 } else { 40 }) {
@@ -563,24 +677,19 @@ pub fn gen(rng: &mut Rng, tier: &str, out: &mut Vec<String>) {
         if ty == "u8" && fib.iter().sum::<u128>() > 255 {
             continue;
         }
-        let exact = !(ty == "f64" && fib.iter().sum::<u128>() >= 1 << 53) && !(ty == "f32" && fib.iter().sum::<u128>() >= 1 << 24);
-        if exact {
-            if rng.chance(1, 2) {
-                fib.reverse();
-            }
-            let ops = ops_for(rng, &fib, ty, n <= 12);
-            out.push(line(ty, None, &weights_str(&fib), &ops));
+        if rng.chance(1, 2) {
+            fib.reverse();
         }
+        out.push(line_vals(rng, ty, 0, &fib, n <= 12));
         if n <= 50 {
             let pows: Vec<u128> = (0..n).map(|i| 1u128 << (i.min(n - 2))).collect();
             let ty2 = if n <= 8 { ty } else if n <= 23 { "u32" } else { "u64" };
             if !(ty2 == "u8" && pows.iter().sum::<u128>() > 255) {
-                let ops = ops_for(rng, &pows, ty2, false);
-                out.push(line(ty2, None, &weights_str(&pows), &ops));
+                out.push(line_vals(rng, ty2, 0, &pows, false));
             }
         }
     }
-    // 5. random vectors, every type, sums within the type (and exactly representable)
+    // 5. random vectors, every type; integer sums within the type, float sums exact or rounding
     for _ in 0..400 * mult {
         let ty = *rng.pick(&ALL_TYPES);
         let n = match rng.next() % 6 {
@@ -594,12 +703,12 @@ pub fn gen(rng: &mut Rng, tier: &str, out: &mut Vec<String>) {
             "u16" => 65535,
             "u32" => u32::MAX as u128,
             "u64" | "usize" => u64::MAX as u128,
-            "f32" => (1 << 24) - 1,
-            _ => (1u128 << 53) - 1,
+            "f32" => (1 << 26) - 1,
+            _ => (1u128 << 55) - 1,
         };
         let per = (budget / n as u128).max(1);
         let style = rng.next() % 4;
-        let mut ws: Vec<u128> = (0..n)
+        let ws: Vec<u128> = (0..n)
             .map(|_| match style {
                 0 => rng.below(per.min(8) + 1),
                 1 => rng.below(per + 1),
@@ -614,18 +723,16 @@ pub fn gen(rng: &mut Rng, tier: &str, out: &mut Vec<String>) {
         if total > budget {
             continue;
         }
-        let k = if ty.starts_with('f') && rng.chance(1, 2) { Some(rng.below(40) as u32) } else { None };
-        let ops = ops_for(rng, &ws, ty, false);
-        out.push(line(ty, k, &weights_str(&ws), &ops));
+        let k = if ty.starts_with('f') && rng.chance(1, 2) { rng.below(40) as u32 } else { 0 };
+        out.push(line_vals(rng, ty, k, &ws, false));
     }
     // 6. long vectors
     for _ in 0..(if thorough { 40 } else { 6 }) {
         let n = rng.range(500, if thorough { 3000 } else { 1500 }) as usize;
-        let ty = *rng.pick(&["u32", "u64", "usize", "f64"]);
+        let ty = *rng.pick(&["u32", "u64", "usize", "f64", "f32"]);
         let maxw = *rng.pick(&[1u128, 3, 100, 100000]);
         let ws: Vec<u128> = (0..n).map(|_| rng.below(maxw + 1)).collect();
-        let ops = ops_for(rng, &ws, ty, false);
-        out.push(line(ty, None, &weights_str(&ws), &ops));
+        out.push(line_vals(rng, ty, 0, &ws, false));
     }
     // 7. integer overflow of `prob0 + prob1` at the boundary of the weight type:
     //    total ∈ {max-1, max, max+1, …}
@@ -641,7 +748,6 @@ pub fn gen(rng: &mut Rng, tier: &str, out: &mut Vec<String>) {
             3 => max + 2,
             _ => max + rng.below(max / 2),
         };
-        // split `target` into n parts each ≤ max
         let mut ws = vec![0u128; n];
         let mut left = target;
         for i in 0..n {
@@ -654,26 +760,56 @@ pub fn gen(rng: &mut Rng, tier: &str, out: &mut Vec<String>) {
         if left != 0 {
             continue;
         }
-        let ops = "enc | dec | book";
-        out.push(line(ty, None, &weights_str(&ws), ops));
+        let opts: Vec<Option<u128>> = ws.iter().map(|&v| Some(v)).collect();
+        out.push(format!("huff {} | {} | enc | dec | book", ty, proto_str(&opts)));
     }
-    // 8. NaN / Err items anywhere (also in a list that would otherwise panic: empty after
-    //    removal, overflowing)
+    // 8. NaN / Err items anywhere (also in a list that would otherwise panic)
     for _ in 0..40 * mult {
         let ty = *rng.pick(&ALL_TYPES);
         let n = rng.range(1, 6) as usize;
-        let mut toks: Vec<String> = (0..n).map(|_| hex(rng.below(200))).collect();
+        let vals: Vec<Option<u128>> = (0..n).map(|_| Some(rng.below(200))).collect();
+        let mut ws = to_proto(ty, &vals, 0);
         let nans = rng.range(1, 2) as usize;
         for _ in 0..nans {
-            let at = rng.below(toks.len() as u128) as usize;
-            toks[at] = "nan".into();
+            let at = rng.below(ws.len() as u128) as usize;
+            ws[at] = if ty == "f32" && rng.chance(1, 2) {
+                Some(*rng.pick(&[0x7fc00000u128, 0x7f800001, 0xffc00000, 0x7fffffff]))
+            } else if ty == "f64" && rng.chance(1, 2) {
+                Some(*rng.pick(&[0x7ff8000000000000u128, 0x7ff0000000000001, 0xfff8000000000000]))
+            } else {
+                None
+            };
         }
-        out.push(line(ty, None, &toks.join(","), "enc | dec"));
+        out.push(format!("huff {} | {} | enc | dec", ty, proto_str(&ws)));
     }
-    // 9. malformed lines
+    // 9. float weights whose sums round (the model adds with native IEEE arithmetic)
+    for _ in 0..500 * mult {
+        let ty = if rng.chance(1, 2) { "f32" } else { "f64" };
+        let ws = rounding_vector(rng, ty);
+        if nan_sum_midway(ty, &ws) {
+            continue;
+        }
+        out.push(line_proto(rng, ty, &ws, false));
+    }
+    // directed: -inf + inf = NaN as the very last sum (pushed onto an empty heap, never compared)
+    for ty in ["f32", "f64"] {
+        let inf = fbits(ty, f64::INFINITY);
+        let ninf = fbits(ty, f64::NEG_INFINITY);
+        let one = fbits(ty, 1.0);
+        for v in [vec![ninf, inf], vec![ninf, ninf, inf], vec![inf, ninf, one], vec![inf, inf, inf], vec![ninf, one, one]] {
+            let ws: Vec<Option<u128>> = v.into_iter().map(Some).collect();
+            out.push(line_proto(rng, ty, &ws, false));
+        }
+    }
+    // the audit's reproducer (3 + 2^24 rounds to 2^24 + 4) and its f64 analogue
+    out.push("huff f32 | 40400000,4b800000,4b800002 | enc | dec | book".into());
+    out.push("huff f64 | 4008000000000000,4340000000000000,4340000000000002 | enc | dec | book".into());
+    // 10. malformed lines
     out.push("huff u8 | 1,2 | frobnicate".into());
     out.push("huff u7 | 1,2 | enc".into());
     out.push("huff u8 3 | 1,2 | enc".into());
+    out.push("huff u8 | 100,2 | enc".into());
+    out.push("huff f32 | 100000000,2 | enc".into());
 }
 
 // ---------------------------------------------------------------------------------------------
@@ -760,7 +896,7 @@ fn oracle_inner(ws: &[u128], fl: Option<&[f64]>, ty: &str, rng: &mut Rng, rep: &
     let opts: Vec<Option<u128>> = ws.iter().map(|&w| Some(w)).collect();
     let rebuild = |t: &str| match fl {
         Some(fw) => build_float(t, fw),
-        None => build(t, 0, &opts),
+        None => build(t, &to_proto(t, &opts, 0)),
     };
     let (e, d) = match rebuild(ty) {
         Some((Ok(e), Ok(d))) => (e, d),
@@ -930,7 +1066,7 @@ fn oracle_inner(ws: &[u128], fl: Option<&[f64]>, ty: &str, rng: &mut Rng, rep: &
     }
     // independent of the weight type (exact sums only)
     if fl.is_none() && ty != "u64" && rng.chance(1, 4) {
-        if let Some((Ok(e2), Ok(d2))) = build("u64", 0, &opts) {
+        if let Some((Ok(e2), Ok(d2))) = build("u64", &opts) {
             if enc_nodes(&e2) != enc_nodes(&e) || dec_nodes(&d2) != dec_nodes(&d) {
                 fail("trees depend on the weight type");
             }
@@ -1071,7 +1207,7 @@ pub fn oracle(rng: &mut Rng, tier: &str, rep: &mut Report) {
         for ty in ["f32", "f64"] {
             rep.eval("C15");
             rep.count("huff.nan");
-            match build(ty, 0, &v) {
+            match build(ty, &to_proto(ty, &v, 0)) {
                 Some((Err(a), Err(b))) if a == "rejected" && b == "rejected" => {}
                 _ => rep.fail("C15", format!("huff {} | NaN at {} of {} : not rejected", ty, at, n)),
             }
